@@ -74,6 +74,24 @@ fn coordinate_to_name_cols() {
     kani::cover!(col == 26);
     check_name(7, col);
 }
+/// the letter-count boundaries of the bijective base-26 column name (Z|AA = 25|26, ZZ|AAA = 701|702, the 26*26 = 676 look-alike, XFD):
+/// concrete columns, so that the quick tier sees them too (the full sweep `coordinate_to_name_cols` is thorough tier)
+#[kani::proof]
+#[kani::unwind(12)]
+fn coordinate_to_name_col_boundaries() {
+    check_name(7, 25);
+    check_name(7, 26);
+    check_name(7, 51);
+    check_name(7, 52);
+    check_name(7, 675);
+    check_name(7, 676);
+    check_name(7, 701);
+    check_name(7, 702);
+    check_name(7, 703);
+    check_name(7, 1377);
+    check_name(7, 1378);
+    check_name(7, 16383);
+}
 // (Err for col >= 16384: a harness with a symbolic out-of-range column did not finish in 7 min; the clause is carried by the Verus unit
 // `shared` through column_number_to_name's contract proved in unit a1.)
 /// C06: no panic for any coordinate, in particular row == u32::MAX (`cell.0 as u64 + 1`)
